@@ -5855,7 +5855,12 @@ class LinProg:
             string += ' <= ' if self.sense[i] == 0 else ' = '
             string += '{}\n'.format(self.const[i])
 
-        ub, lb = self.ub, self.lb
+        # a binary variable lies in [0, 1] whatever bounds are stored for it:
+        # written out, so that the file does not depend on how a reader
+        # combines the Bounds and Binary sections
+        binary = self.vtype == 'B'
+        ub = np.where(binary, np.minimum(self.ub, 1.0), self.ub)
+        lb = np.where(binary, np.maximum(self.lb, 0.0), self.lb)
         nvar = len(ub)
         string += 'Bounds\n'
         for i in range(nvar):
